@@ -215,7 +215,7 @@ func ruleNoShortRead(c *Ctx) {
 	if rcv != nil && c.Prop != "C19" {
 		instrs(rcv, func(ins ssa.Instruction) {
 			cc := callCommon(ins)
-			if cc == nil || cc.StaticCallee() == nil || cc.StaticCallee().Name() != "Peek" {
+			if cc == nil || cc.StaticCallee() == nil || baseFuncName(cc.StaticCallee()) != "Peek" {
 				return
 			}
 			k, ok := evalInt(cc.Args[1])
@@ -250,13 +250,13 @@ func ruleSniffSwitchAfterReplay(c *Ctx) {
 					pending := false
 					known := false
 					switch {
-					case fx.Name() == "bufferSize" && fy.Name() == "bufferRead" && b.Op == token.GTR:
+					case theProgram.baseFieldName(fx) == "bufferSize" && theProgram.baseFieldName(fy) == "bufferRead" && b.Op == token.GTR:
 						pending, known = val, true
-					case fx.Name() == "bufferRead" && fy.Name() == "bufferSize" && b.Op == token.LSS:
+					case theProgram.baseFieldName(fx) == "bufferRead" && theProgram.baseFieldName(fy) == "bufferSize" && b.Op == token.LSS:
 						pending, known = val, true
-					case fx.Name() == "bufferSize" && fy.Name() == "bufferRead" && b.Op == token.LEQ:
+					case theProgram.baseFieldName(fx) == "bufferSize" && theProgram.baseFieldName(fy) == "bufferRead" && b.Op == token.LEQ:
 						pending, known = !val, true
-					case fx.Name() == "bufferRead" && fy.Name() == "bufferSize" && b.Op == token.GEQ:
+					case theProgram.baseFieldName(fx) == "bufferRead" && theProgram.baseFieldName(fy) == "bufferSize" && b.Op == token.GEQ:
 						pending, known = !val, true
 					}
 					if known {
@@ -268,7 +268,7 @@ func ruleSniffSwitchAfterReplay(c *Ctx) {
 					}
 				}
 			}
-			if f, _, ok := fieldLoad(cv); ok && f.Name() == "sniffing" {
+			if f, _, ok := fieldLoad(cv); ok && theProgram.baseFieldName(f) == "sniffing" {
 				if val {
 					s.Sniffing = 1
 				} else {
@@ -286,7 +286,7 @@ func ruleSniffSwitchAfterReplay(c *Ctx) {
 			return
 		}
 		f, base, isF := fieldAddr(sto.Addr)
-		if !isF || f.Name() != "reader" || !typeIs(base.Type(), modRel("network/socket/listener"), "Conn") {
+		if !isF || theProgram.baseFieldName(f) != "reader" || !typeIs(base.Type(), modRel("network/socket/listener"), "Conn") {
 			return
 		}
 		found = true
@@ -308,7 +308,7 @@ func ruleSniffSwitchAfterReplay(c *Ctx) {
 		if !isSt {
 			return
 		}
-		if f, _, ok := fieldAddr(sto.Addr); ok && f.Name() == "bufferRead" {
+		if f, _, ok := fieldAddr(sto.Addr); ok && theProgram.baseFieldName(f) == "bufferRead" {
 			if b, ok := sto.Val.(*ssa.BinOp); ok && b.Op == token.ADD {
 				if call, ok := b.Y.(*ssa.Call); ok && calleeName(&call.Call) == "builtin.copy" {
 					adv = true
@@ -340,7 +340,7 @@ func ruleDelRecordsRemove(c *Ctx) {
 				return false
 			}
 			f, _, ok := fieldAddr(sto.Addr)
-			if !ok || f.Name() != "removes" {
+			if !ok || theProgram.baseFieldName(f) != "removes" {
 				return false
 			}
 			call, ok := sto.Val.(*ssa.Call)
@@ -485,7 +485,7 @@ func ruleWriteErrorReachesLoop(c *Ctx) {
 				if call.Call.IsInvoke() {
 					name = call.Call.Method.Name()
 				} else if call.Call.StaticCallee() != nil {
-					name = call.Call.StaticCallee().Name()
+					name = baseFuncName(call.Call.StaticCallee())
 				}
 			}
 			if name != l.callee {
